@@ -38,42 +38,34 @@ import (
 type vCrash struct{}
 
 type vClient struct {
-	m            map[string][]byte
-	calls        int
-	crashAt      int // die before the crashAt-th call (1-based); 0 = never
-	closes       int
-	inRecovery   bool
-	deleteBatch  bool            // recovery's cleanup batch (only Delete operations) was executed
-	reputAfter   map[string]bool // bodies Set after the cleanup batch during recovery
-	recoveryCall int
+	m       map[string][]byte
+	calls   int
+	crashAt int  // die before the crashAt-th call (1-based); 0 = never
+	dead    bool // the incarnation has died: every later call is refused (panics again, touches nothing)
+	closes  int
 }
 
 func (c *vClient) tick() {
+	if c.dead {
+		panic(vCrash{})
+	}
 	c.calls++
 	if c.crashAt != 0 && c.calls == c.crashAt {
+		c.dead = true
 		panic(vCrash{})
 	}
 }
 
 func (c *vClient) apply(ops ...*storage.Operation) {
-	allDel := len(ops) > 0
 	for _, op := range ops {
 		switch op.Type {
 		case storage.Get:
 			op.Value = c.m[op.Key]
-			allDel = false
 		case storage.Set:
 			c.m[op.Key] = append([]byte{}, op.Value...)
-			allDel = false
-			if c.inRecovery && c.deleteBatch {
-				c.reputAfter[string(op.Value)] = true
-			}
 		case storage.Delete:
 			delete(c.m, op.Key)
 		}
-	}
-	if c.inRecovery && allDel {
-		c.deleteBatch = true
 	}
 }
 
@@ -102,7 +94,12 @@ func (c *vClient) Batch(_ context.Context, ops ...*storage.Operation) error {
 	return nil
 }
 
-func (c *vClient) Close(context.Context) error { c.closes++; return nil }
+func (c *vClient) Close(context.Context) error {
+	if !c.dead {
+		c.closes++
+	}
+	return nil
+}
 
 // ---- request type: uint64 ids, 8 bytes little endian -------------------------------------------
 type vEnc struct{}
@@ -187,9 +184,12 @@ func vViewOf(m map[string][]byte) vView {
 	w, wok := m["wi"]
 	v.riSet = rok && len(r) >= 8
 	v.wiSet = wok && len(w) >= 8
-	if v.riSet && v.wiSet {
-		v.ri = binary.LittleEndian.Uint64(r)
+	// a restarted process: write index without read index = nothing read yet (ri = 0); no write index = new queue
+	if v.wiSet {
 		v.wi = binary.LittleEndian.Uint64(w)
+		if v.riSet {
+			v.ri = binary.LittleEndian.Uint64(r)
+		}
 	}
 	v.diBodies = map[uint64]bool{}
 	if d := m["di"]; len(d) >= 4 {
@@ -278,7 +278,9 @@ type vHist struct {
 	obs      []vIObs
 	handoffs int
 	deaths   int
-	known    int
+
+	refusedReputs int
+	drains        int
 }
 
 func vNewHist(c vCfg) *vHist {
@@ -326,15 +328,13 @@ func vRead(pq *persistentQueue[uint64]) (id uint64, d Done, ok bool, crashed boo
 
 // run one incarnation on h.m; updates the oracle state; appends to h.incs / h.obs
 func (h *vHist) run(inc vInc) (hung bool) {
-	start := vViewOf(h.m)
-	cl := &vClient{m: h.m, inRecovery: true, reputAfter: map[string]bool{}}
+	cl := &vClient{m: h.m}
 	if inc.budget >= 0 {
 		cl.crashAt = inc.budget + 1
 	}
 	ob := vIObs{}
 	var pq *persistentQueue[uint64]
 	var outs []vHandle
-	refused := map[uint64]bool{}
 	recovered := false
 	func() {
 		defer func() {
@@ -348,15 +348,10 @@ func (h *vHist) run(inc vInc) (hung bool) {
 		}()
 		pq = vNewPQ(h.cfg)
 		pq.initClient(context.Background(), cl)
-		cl.inRecovery = false
 		recovered = true
 		ob.recov = cl.calls
-		// which of the requests that were in flight at the start did recovery fail to keep?
-		after := vViewOf(h.m)
-		for id := range start.diBodies {
-			if !vDurable(h.m, after, id) && pq.queueSize+vSizeof(h.cfg, id) > pq.set.capacity {
-				refused[id] = true
-			}
+		if n := len(pq.currentlyDispatchedItems); n > 0 {
+			h.refusedReputs += n // re-puts refused by the capacity check: kept listed under di
 		}
 		for _, o := range inc.script {
 			switch o.tag {
@@ -456,18 +451,7 @@ func (h *vHist) run(inc vInc) (hung bool) {
 			continue
 		}
 		cause := "unexplained"
-		switch {
-		case !end.riSet && end.wiSet && vStoredAnywhere(h.m, id):
-			cause = "F11:read-index-key-never-written-restart-resets-both-indexes"
-		case start.diBodies[id] && ob.died && !recovered && cl.deleteBatch && !cl.reputAfter[string(binary.LittleEndian.AppendUint64(nil, id))]:
-			cause = "F1:listed-in-di-at-start;incarnation-died-in-recovery-after-delete-batch-before-reput"
-		case start.diBodies[id] && recovered && refused[id]:
-			cause = "F2:listed-in-di-at-start;recovery-reenqueue-refused-queue-full"
-		}
 		h.lost[id] = cause
-		if cause != "unexplained" {
-			h.known++
-		}
 		h.fails = append(h.fails, vFail{"accepted-request-not-durable",
 			fmt.Sprintf("id=%d incarnation=%d cause=%s", id, len(h.incs)-1, cause)})
 	}
@@ -523,18 +507,36 @@ func vRunHistory(c vCfg, incs []vInc, drain bool) (*vHist, bool) {
 		}
 	}
 	if drain {
-		n := 1
-		for k := range h.m {
-			if _, err := strconv.ParseUint(k, 10, 64); err == nil {
-				n++
+		// clean drain incarnations (read until empty, complete everything with success) until no body
+		// is left in the store: a re-put refused by the capacity check stays listed under di and is
+		// retried by the NEXT start, so one drain is not always enough; the number of rounds is bounded
+		// by the number of stored bodies (each round moves at least one back when anything is pending)
+		bodies := func() int {
+			n := 0
+			for k := range h.m {
+				if _, err := strconv.ParseUint(k, 10, 64); err == nil {
+					n++
+				}
 			}
+			return n
 		}
-		var sc []vOp
-		for i := 0; i < n; i++ {
-			sc = append(sc, vOp{1, 0, 0}, vOp{2, 0, 0})
+		maxRounds := bodies() + 1
+		for round := 0; round < maxRounds; round++ {
+			n := bodies() + 1
+			if round > 0 && n == 1 {
+				break
+			}
+			var sc []vOp
+			for i := 0; i < n; i++ {
+				sc = append(sc, vOp{1, 0, 0}, vOp{2, 0, 0})
+			}
+			if h.run(vInc{sc, -1}) {
+				return h, true
+			}
+			h.drains++
 		}
-		if h.run(vInc{sc, -1}) {
-			return h, true
+		if left := bodies(); left != 0 {
+			h.fails = append(h.fails, vFail{"drain-does-not-empty-the-store", fmt.Sprintf("bodies_left=%d after %d drain incarnations", left, h.drains)})
 		}
 		h.finish()
 	}
@@ -625,9 +627,10 @@ func vEmit(out *vOut, h *vHist) {
 		}
 	}
 	out.Stat("histories", 1)
-	if h.known > 0 {
-		out.Stat("histories_in_known_finding_region", 1)
+	if h.refusedReputs > 0 {
+		out.Stat("histories_with_refused_reput_in_recovery", 1)
 	}
+	out.Stat(fmt.Sprintf("drain_incarnations_%d", h.drains), 1)
 	if h.deaths > 0 {
 		out.Stat(fmt.Sprintf("histories_with_%d_deaths", h.deaths), 1)
 	}
@@ -676,7 +679,7 @@ func TestVerifC01(t *testing.T) {
 	rng := vNewRand(1)
 	g := &vGen{rng: rng, nextID: 100}
 
-	// (0) the recorded witnesses (F1 twice, F2, F11) and two plain histories
+	// (0) regression histories: the witnesses of the repaired defects F1 (twice), F2, missing read index; two plain ones
 	off := func(id uint64) vOp { return vOp{0, id, 0} }
 	rd := vOp{1, 0, 0}
 	ok0 := vOp{2, 0, 0}
@@ -719,8 +722,8 @@ func TestVerifC01(t *testing.T) {
 		out.Stat(fmt.Sprintf("cfg_capacity_%d", c.capacity), 1)
 		out.Stat(fmt.Sprintf("cfg_reqsized_%v", c.reqSized), 1)
 		var prefix []vInc
-		if rng.Intn(10) != 0 {
-			// warm store (the read index key exists); otherwise the history starts cold (F11 region)
+		if rng.Intn(4) != 0 {
+			// warm store (the read index key exists); otherwise the history starts cold (write index without read index)
 			g.nextID++
 			prefix = append(prefix, vInc{[]vOp{off(g.nextID), rd, ok0}, -1})
 			if rng.Intn(2) == 0 {
